@@ -571,6 +571,38 @@ class Script:
                     except (EOFError, OSError):
                         break
             return {'ret': n}
+        if o == 'mux_drain':
+            # a consumer multiplexing the (caller-supplied) results pipe the way the Pool does: mp.connection.wait + recv
+            # until an end-of-results message or EOF arrives
+            import multiprocessing.connection as _mpc
+            ep = self.pipes[op['var']].parent_end
+            got, end = [], None
+            dl = time.time() + op.get('timeout', 8)
+            while end is None:
+                left = dl - time.time()
+                if left <= 0:
+                    end = 'hang'
+                    break
+                try:
+                    ready = _mpc.wait([ep], min(left, 0.5))
+                except (OSError, ValueError) as e:
+                    end = 'wait-RAISES:' + type(e).__name__
+                    break
+                if not ready:
+                    continue
+                try:
+                    msg = ep.recv()
+                except (EOFError, OSError):
+                    end = 'eof'
+                    break
+                except Exception as e:  # noqa
+                    end = 'recv-RAISES:' + type(e).__name__
+                    break
+                if isinstance(msg, tuple) and len(msg) == 4 and msg[1] is False:
+                    end = 'marker'
+                    break
+                got.append(_digest(_rep(msg[2])) if op.get('digest') else _rep(msg[2]))
+            return {'ret': got, 'end': end}
         if o == 'old_child_dead':
             pid = getattr(self, 'old_pids', {}).get(op['var'])
             if op.get('kind') in ('T', 'PT') or not isinstance(pid, int):
